@@ -72,13 +72,22 @@ def bin_dir():
     return d
 
 
-def prune_bins(keep, others=3):
+def prune_bins(keep, others=3, max_bins=700):
     root = os.path.join(vlib.BUILD, 'cache')
     ents = [os.path.join(root, e) for e in os.listdir(root) if e.startswith('c20-')]
     ents = [e for e in ents if e != keep]
     ents.sort(key=lambda e: os.path.getmtime(e))
     for e in ents[:-others] if others else ents:
         shutil.rmtree(e, ignore_errors=True)
+    # bound the number of cached binaries of the current tree: least recently used go first
+    bins = [os.path.join(keep, f) for f in os.listdir(keep) if f.endswith('.bin')]
+    if len(bins) > max_bins:
+        bins.sort(key=lambda f: os.path.getmtime(f))
+        for f in bins[:len(bins) - max_bins]:
+            try:
+                os.remove(f)
+            except OSError:
+                pass
 
 
 def compile_program(src, compiler):
@@ -88,6 +97,10 @@ def compile_program(src, compiler):
     d = bin_dir()
     binp = os.path.join(d, key + '.bin')
     if os.path.exists(binp):
+        try:
+            os.utime(binp, None)
+        except OSError:
+            pass
         return binp, 'cached', 0.0, True
     cpp = os.path.join(d, '%s.%d.cpp' % (key, os.getpid()))
     with open(cpp, 'w') as f:
